@@ -27,6 +27,16 @@
 (*   MC_OdsTable_asis.cfg.  FALSE is the code after the repair             *)
 (*   (`&empty_cells[col_min..]`), which every other configuration uses.    *)
 (*                                                                         *)
+(* Whitespace: a cell list may contain pseudo tokens [k |-> "ws", n |-> 0,   *)
+(* lex |-> name] = a whitespace-only text node between two cell elements,   *)
+(* and a table carries pw ("" or a name) = whitespace-only text in front of *)
+(* every row element and, inside every cell that has children, around its   *)
+(* text:p elements (what "pretty printing" produces; ignorable in           *)
+(* element-only content).  WsIgnored = FALSE is the reader as pinned        *)
+(* (read_row fails with Mismatch on the text event; get_datatype appends    *)
+(* the text to a string value): refuted, see MC_OdsTable_asis_ws.cfg.       *)
+(* TRUE is the code after the repair.                                       *)
+(*                                                                         *)
 (* Not asserted (outside the checked language): string cells with empty    *)
 (* text (the statement does not say whether "" is a non-empty cell),       *)
 (* formula cells without a cached value, content inside covered cells,     *)
@@ -35,7 +45,7 @@
 (***************************************************************************)
 EXTENDS Naturals, Sequences, FiniteSets, TLC, SequencesExt
 
-CONSTANT FullWidthPad
+CONSTANTS FullWidthPad, WsIgnored
 
 Inf == 2147483647
 Def == <<>>        \* T::default() (Data::Empty, the empty formula string)
@@ -76,9 +86,14 @@ ReadTag(attr, vt) ==
 IdealVal(pc) == IF pc.vt = "" THEN Def ELSE <<IdealTag(pc.vt), pc.canon>>
 IdealFm(pc)  == IF pc.fm = "" THEN Def ELSE <<pc.fm>>
 
-CellVal(pc) == IF pc.vt = "" THEN Def
-               ELSE LET t == ReadTag(ValAttr(pc), pc.vt)
-                    IN IF t = "_" THEN Def ELSE <<t, pc.canon>>
+\* pw: whitespace around the text:p children; only get_datatype's text loop (strings without
+\* office:string-value) ever sees it
+CellVal(pc, pw) ==
+  IF pc.vt = "" THEN Def
+  ELSE LET t == ReadTag(ValAttr(pc), pc.vt)
+       IN IF t = "_" THEN Def
+          ELSE IF pw # "" /\ ~WsIgnored /\ ValAttr(pc) = "" THEN <<"s+ws", pc.canon>>
+          ELSE <<t, pc.canon>>
 CellFm(pc)  == IF pc.fm = "" THEN Def ELSE <<pc.fm>>
 
 --------------------------------------------------------------------------
@@ -165,21 +180,26 @@ RSlice(r, a, b) == RFrom(RTo(r, b), a)
 \* read_row, one loop iteration: st = [out : Seq(<<n, val, fm>>), pend : Nat]
 \*   for _ in 0..empty_col_repeats { push Empty }  -- before looking at the new value
 \*   empty value and empty formula -> only remember `repeats`
-RowStep(st, pc) ==
-  LET val == CellVal(pc)
+RowStep(st, pc, pw) ==
+  IF pc.k = "ws"                       \* Event::Text between two cell elements
+  THEN (IF WsIgnored THEN st ELSE [st EXCEPT !.err = TRUE])
+  ELSE
+  LET val == CellVal(pc, pw)
       fm  == CellFm(pc)
       flushed == IF st.pend > 0 THEN Append(st.out, <<st.pend, Def, Def>>) ELSE st.out
   IN IF val = Def /\ fm = Def
-     THEN [out |-> flushed, pend |-> pc.n]
-     ELSE [out |-> Append(flushed, <<pc.n, val, fm>>), pend |-> 0]
+     THEN [st EXCEPT !.out = flushed, !.pend = pc.n]
+     ELSE [st EXCEPT !.out = Append(flushed, <<pc.n, val, fm>>), !.pend = 0]
 
-RowInit == [out |-> <<>>, pend |-> 0]
+RowInit == [out |-> <<>>, pend |-> 0, err |-> FALSE]
 \* End(table:table-row): the pending run is dropped
-ReadRow(pcs) == FoldLeft(RowStep, RowInit, pcs).out
+ReadRowSt(pcs, pw) == FoldLeft(LAMBDA st, pc : RowStep(st, pc, pw), RowInit, pcs)
+ReadRow(pcs, pw) == ReadRowSt(pcs, pw).out
 
 \* read_table: `cells` (segmented by `cols`) and rows_repeats
-ReadTable(rows) == [cells |-> [i \in 1..Len(rows) |-> ReadRow(rows[i].cells)],
-                    reps  |-> [i \in 1..Len(rows) |-> rows[i].rr]]
+ReadTable(rows, pw) == [cells |-> [i \in 1..Len(rows) |-> ReadRow(rows[i].cells, pw)],
+                        reps  |-> [i \in 1..Len(rows) |-> rows[i].rr],
+                        err   |-> \E i \in 1..Len(rows) : ReadRowSt(rows[i].cells, pw).err]
 \* the offsets the code keeps in `cols`
 Cols(cells) == FoldLeft(LAMBDA a, row : Append(a, a[Len(a)] + RLen(row)), <<0>>,
                         [i \in 1..Len(cells) |-> [j \in 1..Len(cells[i]) |-> <<cells[i][j][1], Def>>]])
@@ -255,6 +275,10 @@ ProjRange(rg) ==
   IN [start |-> rg.start, end |-> rg.end, cells |-> f.out,
       shape |-> (h <= Inf \div w /\ f.off = h * w)]
 
-AsIsV(rows) == LET t == ReadTable(rows) IN ProjRange(GetRange(ValRows(t.cells), t.reps))
-AsIsF(rows) == LET t == ReadTable(rows) IN ProjRange(GetRange(FmRows(t.cells), t.reps))
+\* OdsError::Mismatch from read_row makes Ods::new fail as a whole
+Failed == [error |-> "Mismatch"]
+AsIsV(rows, pw) == LET t == ReadTable(rows, pw)
+                   IN IF t.err THEN Failed ELSE ProjRange(GetRange(ValRows(t.cells), t.reps))
+AsIsF(rows, pw) == LET t == ReadTable(rows, pw)
+                   IN IF t.err THEN Failed ELSE ProjRange(GetRange(FmRows(t.cells), t.reps))
 =============================================================================
